@@ -2,7 +2,7 @@
    pointwise specification whenever it returns without a defect flag, by induction on the recursion
    fuel (all functions are mutually recursive through [run]). *)
 From Coq Require Import QArith Lia Lqa Btauto.
-From SE Require Import C27.SetSpec C27.SetOrder C27.SetNum C27.SetCont C27.SetIvl C27.SetFin C27.SetInt.
+From SE Require Import C27.SetSpec C27.SetOrder C27.SetNum C27.SetCont C27.SetIvl C27.SetFin C27.SetInt C27.SetKey C27.SetWalk.
 Local Open Scope m_scope.
 
 Definition simple (s : sv) : bool :=
@@ -689,5 +689,183 @@ Section WithRec.
       + destruct Hk as [Hw Hsx]. split; [exact Hw|]. intro p. rewrite Hsx.
         rewrite (existsb_same_elems (In_set p) x _ Hm). apply ivl_compl_core; assumption.
       + apply (forallb_wf_same x _ Hm). apply ivl_compl_pieces_wf; assumption.
+  Qed.
+
+  (* ---------------------------------------------------------------- FiniteSet *)
+  Lemma in_numset_contains : forall o a, (o = SIntegers \/ o = SNaturals \/ o = SNaturals0) ->
+      in_numset o a = contains o a.
+  Proof. intros o a [->|[->| ->]]; reflexivity. Qed.
+
+  Lemma fs_union_ok : forall l o r, wf_set (SFinite l) = true -> wf_set o = true ->
+      fs_union rec l o = (Ok r, []) ->
+      wf_set r = true /\ forall p, In_set p r = In_set p (SFinite l) || In_set p o.
+  Proof.
+    intros l o r Hl Ho H. pose proof Hl as Hl'. simpl in Hl. unfold fs_union in H.
+    assert (Hnumset : forall o', (o' = SIntegers \/ o' = SNaturals \/ o' = SNaturals0) -> wf_set o' = true ->
+              (c <- nb_ins_all (filter (fun a => negb (in_numset o' a)) l) [] ;;
+               match c with [] => ret o' | _ => mk_union2 o' (finiteset c) end) = (Ok r, []) ->
+              wf_set r = true /\ forall p, In_set p r = In_set p (SFinite l) || In_set p o').
+    { intros o' Ho' Hwo' Hx. minv. pose proof (nb_ins_all_ok _ _ _ Hm) as Hse. rewrite app_nil_r in Hse.
+      assert (Hfil : forall p, in_finite x p = in_finite l p && negb (In_set p o')).
+      { intro p. rewrite (in_finite_same x _ p Hse).
+        apply (in_finite_filter (fun a => negb (in_numset o' a)) (fun p => negb (In_set p o'))).
+        intros a Ha Hp. f_equal. rewrite in_numset_contains by exact Ho'.
+        apply contains_In; auto; [exact (forallb_In num_ok l a Hl Ha)|apply at_pos_eq; exact Hp]. }
+      assert (Hxok : forallb num_ok x = true).
+      { apply (forallb_ok_same x _ Hse). apply forallb_filter_ok. exact Hl. }
+      destruct x as [|c cs].
+      - apply ret_ok in Hk. subst r. split; [assumption|]. intro p. simpl In_set at 2. specialize (Hfil p). simpl in Hfil.
+        destruct (in_finite l p), (In_set p o'); simpl in *; try reflexivity; discriminate.
+      - apply mk_union2_ok in Hk. destruct Hk as [Hs Hw]. split; [apply Hw; auto; apply finiteset_wf; exact Hxok|].
+        intro p. rewrite Hs, finiteset_In, Hfil. simpl. destruct (in_finite l p), (In_set p o'); reflexivity. }
+    destruct o; try (by_rec_comm rec_union; fail).
+    - (* Reals *) minv. split; [reflexivity|]. intro p. simpl. rewrite orb_true_r. reflexivity.
+    - (* Rationals *) minv. split; [reflexivity|]. intro p. simpl. symmetry. apply sub_or'.
+      apply in_finite_rationals. exact Hl.
+    - apply Hnumset; auto.
+    - apply Hnumset; auto.
+    - apply Hnumset; auto.
+    - (* Interval *) rename s into os, e into oe, lo into olo, ro into oro.
+      minv. destruct x as [[lf rt] cont].
+      destruct (fs_union_ivl_loop_ok os oe olo oro l olo oro [] (lf, rt, cont) Ho Hl eq_refl (fun h => h) (fun h => h) Hm)
+        as [Hc [Hlf [Hrt Hsem]]]. simpl in Hc, Hlf, Hrt, Hsem.
+      pose proof (wf_interval_inv _ _ _ _ Ho) as [Hos [Hoe Hlt]].
+      assert (Hsem' : forall p, in_finite cont p || in_interval os oe lf rt p = in_finite l p || in_interval os oe olo oro p).
+      { intro p. rewrite Hsem. reflexivity. }
+      destruct cont as [|c cs].
+      + destruct (Bool.eqb lf olo && Bool.eqb rt oro) eqn:E.
+        * apply andb_prop in E. destruct E as [E1 E2]. apply eqb_prop in E1. apply eqb_prop in E2. subst lf rt.
+          minv. split; [assumption|]. intro p. simpl. specialize (Hsem' p). simpl in Hsem'. first [exact Hsem'|symmetry; exact Hsem'].
+        * minv. split; [apply interval_wf; assumption|]. intro p. rewrite interval_In by assumption.
+          specialize (Hsem' p). simpl in Hsem'. simpl. first [exact Hsem'|symmetry; exact Hsem'].
+      + destruct (Bool.eqb lf olo && Bool.eqb rt oro) eqn:E.
+        * apply andb_prop in E. destruct E as [E1 E2]. apply eqb_prop in E1. apply eqb_prop in E2. subst lf rt.
+          apply mk_union2_ok in Hk. destruct Hk as [Hs Hw]. split; [apply Hw; auto|].
+          intro p. rewrite Hs. simpl. first [apply Hsem'|symmetry; apply Hsem'].
+        * apply mk_union2_ok in Hk. destruct Hk as [Hs Hw].
+          split; [apply Hw; [exact Hc|apply interval_wf; assumption]|].
+          intro p. rewrite Hs. rewrite interval_In by assumption. simpl. first [apply Hsem'|symmetry; apply Hsem'].
+    - (* FiniteSet *) minv. pose proof (nb_ins_all_ok _ _ _ Hm) as Hse. rewrite app_nil_r in Hse. split.
+      + apply finiteset_wf. apply (forallb_ok_same x _ Hse). rewrite forallb_app. simpl in Ho. rewrite Hl, Ho. reflexivity.
+      + intro p. rewrite finiteset_In, (in_finite_same x _ p Hse), in_finite_app. reflexivity.
+    - apply mk_union2_ok in H. destruct H as [Hs Hw]. split; [apply Hw; assumption|exact Hs].
+    - apply mk_union2_ok in H. destruct H as [Hs Hw]. split; [apply Hw; assumption|exact Hs].
+  Qed.
+
+  Lemma fs_inter_ok : forall l o r, wf_set (SFinite l) = true -> wf_set o = true ->
+      fs_inter rec l o = (Ok r, []) ->
+      wf_set r = true /\ forall p, In_set p r = In_set p (SFinite l) && In_set p o.
+  Proof.
+    intros l o r Hl Ho H. pose proof Hl as Hl'. simpl in Hl. unfold fs_inter in H.
+    assert (Hfilter : forall (f : number -> bool) o', wf_set o' = true ->
+              (forall a, contains o' a = f a) ->
+              (c <- nb_ins_all (filter f l) [] ;; ret (finiteset c)) = (Ok r, []) ->
+              wf_set r = true /\ forall p, In_set p r = In_set p (SFinite l) && In_set p o').
+    { intros f o' Hwo' Hf Hx. minv. pose proof (nb_ins_all_ok _ _ _ Hm) as Hse. rewrite app_nil_r in Hse. split.
+      - apply finiteset_wf. apply (forallb_ok_same x _ Hse). apply forallb_filter_ok. exact Hl.
+      - intro p. rewrite finiteset_In, (in_finite_same x _ p Hse). simpl.
+        apply (in_finite_filter f (fun p => In_set p o')).
+        intros a Ha Hp. rewrite <- Hf.
+        apply contains_In; auto; [exact (forallb_In num_ok l a Hl Ha)|apply at_pos_eq; exact Hp]. }
+    destruct o; try (by_rec_comm rec_inter; fail).
+    - (* Reals *) minv. pose proof (nb_ins_all_ok _ _ _ Hm) as Hse. rewrite app_nil_r in Hse. split.
+      + apply finiteset_wf. apply (forallb_ok_same x _ Hse). exact Hl.
+      + intro p. rewrite finiteset_In, (in_finite_same x _ p Hse). simpl. rewrite andb_true_r. reflexivity.
+    - apply (Hfilter n_is_exact SRationals); auto.
+    - apply (Hfilter (in_numset SIntegers) SIntegers); auto.
+    - apply (Hfilter (in_numset SNaturals) SNaturals); auto.
+    - apply (Hfilter (in_numset SNaturals0) SNaturals0); auto.
+    - apply (Hfilter (ivl_contains s e lo ro) (SInterval s e lo ro)); auto.
+    - apply free_inter2_ok in H; auto.
+    - apply mk_inter2_ok in H. destruct H as [Hs Hw]. split; [apply Hw; assumption|exact Hs].
+    - apply mk_inter2_ok in H. destruct H as [Hs Hw]. split; [apply Hw; assumption|exact Hs].
+  Qed.
+
+  Lemma fs_compl_ok : forall l o r, wf_set (SFinite l) = true -> wf_set o = true ->
+      fs_compl rec l o = (Ok r, []) ->
+      wf_set r = true /\ forall p, In_set p r = In_set p o && negb (In_set p (SFinite l)).
+  Proof.
+    intros l o r Hl Ho H. pose proof Hl as Hl'. simpl in Hl. unfold fs_compl in H.
+    destruct o; try (apply rec_helper in H; auto; fail).
+    - (* Interval *) rename s into os, e into oe, lo into olo, ro into oro.
+      pose proof (wf_interval_inv _ _ _ _ Ho) as [Hos [Hoe Hlt]].
+      destruct (sort_nums_ok l Hl) as [Sse [Ssorted Sok]].
+      minv. destruct x as [[[last lopen] ropen] ivs].
+      assert (Hinv0 : walk_inv os oe (sort_nums l) os []).
+      { unfold walk_inv. split; [exact Hos|]. split; [pord|]. split; [exact Hlt|]. split; [reflexivity|].
+        split; [intros p Hp; discriminate|left; pord]. }
+      destruct (walk_ok os oe Hos Hoe Hlt (sort_nums l) os olo oro [] _ Sok Ssorted Hinv0 Hm) as [W1 [W2 [W3 W4]]].
+      simpl in W1, W2, W3, W4.
+      assert (Etest : num_eqb (nmax last oe) oe = true) by (apply eq_nmax_r; auto; pord).
+      rewrite Etest in Hk. minv.
+      match goal with Hi : ss_ins _ _ = (Ok ?y, []) |- _ => pose proof (ss_ins_ok _ _ _ Hi) as Hse; rename y into ivs' end.
+      match goal with Hf : match ivs' with [] => _ | _ => _ end = _ |- _ => rename Hf into Hfin end.
+      assert (Hne : ivs' <> []) by (eapply same_elems_cons_ne; eauto).
+      destruct ivs' as [|y ys] eqn:Ex0; [congruence|]. rewrite <- Ex0 in *. clear Ex0.
+      assert (Hr : r = make_union ivs').
+      { destruct ivs'; [congruence|]. apply ret_ok in Hfin. symmetry. exact Hfin. }
+      subst r. split.
+      + apply make_union_wf; [exact Hne|].
+        apply (forallb_wf_same ivs' _ Hse). simpl. rewrite interval_wf; auto.
+      + intro p. rewrite make_union_In. rewrite (existsb_same_elems (In_set p) ivs' _ Hse). simpl.
+        rewrite interval_In by assumption. rewrite orb_comm, W4. simpl.
+        rewrite (in_finite_same _ _ p Sse). reflexivity.
+    - (* FiniteSet *) minv. apply negb_false_iff in Hg. apply andb_prop in Hg. destruct Hg as [S1 S2].
+      simpl in Ho.
+      match goal with Hi : nb_ins_all _ _ = _ |- _ => pose proof (nb_ins_all_ok _ _ _ Hi) as Hse end.
+      rewrite app_nil_r in Hse. split.
+      + apply finiteset_wf. apply (forallb_ok_same x _ Hse). apply set_difference_num_ok; assumption.
+      + intro p. rewrite finiteset_In, (in_finite_same x _ p Hse). simpl. apply in_finite_difference; assumption.
+  Qed.
+
+  (* ---------------------------------------------------------------- the member functions and free functions *)
+  Lemma dispatch_sets_ok : forall c r,
+      (match c with CBoundary _ | CInterior _ | CClosure _ => False | _ => True end) ->
+      dispatch rec c = (Ok r, []) -> call_wf c = true -> wf_set r = true /\ call_spec c r.
+  Proof.
+    intros c r Hnot H Hwf. destruct c; simpl in Hnot; try contradiction; simpl in Hwf; simpl call_spec.
+    - (* set_union *) apply andb_prop in Hwf. destruct Hwf as [Ha Ho]. simpl in H. destruct a.
+      + minv. split; [assumption|]. intro p. reflexivity.
+      + minv. split; [reflexivity|]. intro p. reflexivity.
+      + apply reals_union_ok; assumption.
+      + apply rationals_union_ok; assumption.
+      + apply integers_union_ok; assumption.
+      + apply naturals_union_ok; assumption.
+      + apply naturals0_union_ok; assumption.
+      + apply ivl_union_ok; assumption.
+      + apply fs_union_ok; assumption.
+      + apply wf_union_inv in Ha. destruct Ha as [Hne Hl].
+        apply union_union_loop_ok in H; auto.
+      + apply inter_union_ok; assumption.
+      + apply compl_union_ok; assumption.
+    - (* set_intersection *) apply andb_prop in Hwf. destruct Hwf as [Ha Ho]. simpl in H. destruct a.
+      + minv. split; [reflexivity|]. intro p. reflexivity.
+      + minv. split; [assumption|]. intro p. reflexivity.
+      + apply reals_inter_ok; assumption.
+      + apply rationals_inter_ok; assumption.
+      + apply integers_inter_ok; assumption.
+      + apply naturals_inter_ok; assumption.
+      + apply naturals0_inter_ok; assumption.
+      + apply ivl_inter_ok; assumption.
+      + apply fs_inter_ok; assumption.
+      + apply union_inter_ok; assumption.
+      + simpl in Ha. apply inter_inter_loop_ok in H; auto.
+      + apply compl_inter_ok; assumption.
+    - (* set_complement *) apply andb_prop in Hwf. destruct Hwf as [Ha Ho]. simpl in H. destruct a.
+      + minv. split; [assumption|]. intro p. simpl. rewrite andb_true_r. reflexivity.
+      + minv. split; [reflexivity|]. intro p. simpl. rewrite andb_false_r. reflexivity.
+      + apply reals_compl_ok; assumption.
+      + apply rationals_compl_ok; assumption.
+      + apply integers_compl_ok; assumption.
+      + apply naturals_compl_ok; assumption.
+      + apply naturals0_compl_ok; assumption.
+      + apply ivl_compl_ok; assumption.
+      + apply fs_compl_ok; assumption.
+      + apply union_compl_ok; assumption.
+      + apply inter_compl_ok; assumption.
+      + apply compl_compl_ok; assumption.
+    - apply free_union_ok; assumption.
+    - apply free_inter_ok; assumption.
+    - apply andb_prop in Hwf. destruct Hwf as [Ha Ho]. apply helper_ok; assumption.
   Qed.
 End WithRec.
